@@ -5,7 +5,8 @@ import panics as P
 
 META = {
     "explanation": (
-        "The lookup function is found structurally (converter method returning Result<AwardLookup, _>). R1: the exact key "
+        "The lookup function is found structurally (converter method returning Result<AwardLookup, _>) and analysed as a region "
+        "(the method, its helpers and closures; look-back spelled as a loop over a constant range or as <range>.find_map). R1: the exact key "
         "(upper-cased symbol, deposit date) is probed first and dominates the look-back loop; the loop iterates a range whose "
         "evaluated constants are exactly 1..=7, forwards (nearest first), probing `deposit − k` via checked_sub_signed of "
         "TimeDelta::days(k) (never an addition), and returns from inside the loop on the first hit with the probed date as "
